@@ -637,13 +637,15 @@ func (m *Machine) rangeIter(fr *frame, in *ssa.Range) value {
 
 func (it *iter) next(m *Machine) value {
 	if it.str != nil {
-		// ASCII only in this spike: each byte is a rune (asserted by harness inputs)
+		// range over a string decodes UTF-8 (Go semantics); symbolic bytes are case-split on the
+		// encoding classes, so every decoding the bytes admit is a path
 		if it.pos >= len(it.str.B) {
 			return tuple{m.st.False, m.st.BV(64, 0), m.st.BV(32, 0)}
 		}
 		i := it.pos
-		it.pos++
-		return tuple{m.st.True, m.st.BV(64, uint64(i)), m.st.Zext(it.str.B[i], 32)}
+		r, w := m.decodeRune(it.str.B[i:])
+		it.pos += w
+		return tuple{m.st.True, m.st.BV(64, uint64(i)), r}
 	}
 	if it.pos >= len(it.keys) {
 		return tuple{m.st.False, nil, nil}
@@ -678,4 +680,54 @@ func (m *Machine) wideLoad(p *value, n int, fr *frame) value {
 		r = m.st.Concat(o.s[o.i+k].(*term.Term), r)
 	}
 	return r
+}
+
+// decodeRune implements utf8.DecodeRuneInString on symbolic bytes: it returns the rune (a
+// 32-bit term) and its concrete width; invalid encodings yield U+FFFD with width 1.
+func (m *Machine) decodeRune(b []*term.Term) (*term.Term, int) {
+	st := m.st
+	c8 := func(v uint64) *term.Term { return st.BV(8, v) }
+	in := func(x *term.Term, lo, hi uint64) *term.Term { return st.And(st.Ule(c8(lo), x), st.Ule(x, c8(hi))) }
+	z := func(x *term.Term) *term.Term { return st.Zext(x, 32) }
+	sh := func(x *term.Term, n uint64) *term.Term { return st.Bin(term.OpShl, x, st.BV(32, n)) }
+	and := func(x *term.Term, mask uint64) *term.Term { return st.Bin(term.OpBvAnd, z(x), st.BV(32, mask)) }
+	or := func(a, b *term.Term) *term.Term { return st.Bin(term.OpBvOr, a, b) }
+	bad := st.BV(32, 0xFFFD)
+	b0 := b[0]
+	if m.branch(st.Ult(b0, c8(0x80))) {
+		return z(b0), 1
+	}
+	cont := func(x *term.Term) *term.Term { return in(x, 0x80, 0xBF) }
+	// two bytes: C2..DF 80..BF
+	if m.branch(in(b0, 0xC2, 0xDF)) {
+		if len(b) >= 2 && m.branch(cont(b[1])) {
+			return or(sh(and(b0, 0x1F), 6), and(b[1], 0x3F)), 2
+		}
+		return bad, 1
+	}
+	// three bytes: E0 A0..BF, E1..EC 80..BF, ED 80..9F, EE..EF 80..BF
+	if m.branch(in(b0, 0xE0, 0xEF)) {
+		if len(b) < 3 {
+			return bad, 1
+		}
+		lo, hi := st.Ite(st.Eq(b0, c8(0xE0)), c8(0xA0), c8(0x80)), st.Ite(st.Eq(b0, c8(0xED)), c8(0x9F), c8(0xBF))
+		ok1 := st.And(st.Ule(lo, b[1]), st.Ule(b[1], hi))
+		if m.branch(st.And(ok1, cont(b[2]))) {
+			return or(or(sh(and(b0, 0x0F), 12), sh(and(b[1], 0x3F), 6)), and(b[2], 0x3F)), 3
+		}
+		return bad, 1
+	}
+	// four bytes: F0 90..BF, F1..F3 80..BF, F4 80..8F
+	if m.branch(in(b0, 0xF0, 0xF4)) {
+		if len(b) < 4 {
+			return bad, 1
+		}
+		lo, hi := st.Ite(st.Eq(b0, c8(0xF0)), c8(0x90), c8(0x80)), st.Ite(st.Eq(b0, c8(0xF4)), c8(0x8F), c8(0xBF))
+		ok1 := st.And(st.Ule(lo, b[1]), st.Ule(b[1], hi))
+		if m.branch(st.And(ok1, st.And(cont(b[2]), cont(b[3])))) {
+			return or(or(or(sh(and(b0, 0x07), 18), sh(and(b[1], 0x3F), 12)), sh(and(b[2], 0x3F), 6)), and(b[3], 0x3F)), 4
+		}
+		return bad, 1
+	}
+	return bad, 1
 }
